@@ -74,7 +74,7 @@ impl RngCore for ScriptedRng {
         }
     }
     fn fill_bytes(&mut self, dest: &mut [u8]) {
-        rand_core_fill(self, dest)
+        let _ = rand_core_fill(self, dest);
     }
     fn try_fill_bytes(&mut self, dest: &mut [u8]) -> Result<(), rand::Error> {
         self.fill_bytes(dest);
@@ -751,7 +751,7 @@ pub fn mom_case_strategy() -> BoxedStrategy<MomCase> {
 
 pub fn parts_c17(tier: Tier) -> (Vec<Part<Case>>, String) {
     (
-        vec![Part { name: "momentum-paths".to_string(), kind: PartKind::Random { make: Box::new(|| mom_case_strategy().prop_map(Case::Momentum).boxed()), cases: tier.pick(60_000, 1_500_000) } }],
+        vec![Part { name: "momentum-paths".to_string(), kind: PartKind::Random { make: Box::new(|| mom_case_strategy().prop_map(Case::Momentum).boxed()), cases: tier.pick(400_000, 4_000_000) } }],
         "A case is a mid-price path (rising, falling, zig-zag, flat or a random walk, in ticks about a centre level L) imposed by large harness quotes that are replaced every period (spreads of even and odd width, so whole-tick and half-tick mid-prices occur), a MomentumAgent or MomentumMarketAgent with generated decay / scale / demand / order ratio / counts / cancel probability, and a seed. Oracle 1: the harness reads the mid-price the agent is about to see, recomputes M = m(1-decay) + decay(P-p) itself and requires: no sells while M > 0, no buys while M < 0, nothing while M = 0, and at saturated demand (|demand*tanh(scale*M)|/n >= 1) exactly one market order per trader on the side given by the sign of M (and one limit order per trader when order_ratio*|...| >= 1). Oracle 2 (metamorphic): the same seed on the path mirrored about L must emit, update by update, the same orders with buy and sell exchanged and limit prices mirrored; comparison stops once the observed mid-prices are no longer mirror images. Non-trivial: the path has at least one update with M > 0 and one with M < 0 at saturated demand.".to_string(),
     )
 }
